@@ -30,6 +30,8 @@ fn main() {
         "C12" => checks::c12::run(&mut rep),
         "C14" => checks::c14::run(&mut rep),
         "C15" => checks::c15::run(&mut rep),
+        "C19" => checks::c19::run(&mut rep),
+        "C20" => checks::c20::run(&mut rep),
         _ => {
             eprintln!("unknown property id {id}");
             std::process::exit(2);
